@@ -50,6 +50,11 @@ func c17Scalars(ci *refx509.CurveInfo) map[string]*big.Int {
 		out[fmt.Sprintf("2^%d-1 (%d leading zero bytes)", k, z)] = new(big.Int).Sub(p, big.NewInt(1))
 		out[fmt.Sprintf("2^%d (%d leading zero bytes)", k-1, z)] = new(big.Int).Rsh(p, 1)
 	}
+	// every scalar byte-length: 2^(8k)-1 and 2^(8k-1) have exactly l-k leading zero octets
+	for k := 1; k < l; k++ {
+		out[fmt.Sprintf("len%02d-max (%d leading zero bytes)", k, l-k)] = new(big.Int).Sub(new(big.Int).Lsh(big.NewInt(1), uint(8*k)), big.NewInt(1))
+		out[fmt.Sprintf("len%02d-min (%d leading zero bytes)", k, l-k)] = new(big.Int).Lsh(big.NewInt(1), uint(8*k-1))
+	}
 	// fixed mid-range values: n * i/9 + i
 	for i := 1; i <= 8; i++ {
 		v := new(big.Int).Mul(n, big.NewInt(int64(i)))
@@ -527,7 +532,7 @@ func init() {
 	register(&engine.Check{
 		ID:          "C17",
 		Level:       "exploration",
-		Rule:        "10 curves x 20 boundary scalars (1,2,3,n-1,n-2,n/2, 2^k-1 and 2^(k-1) for 1..3 leading zero bytes, 8 mid-range) through cert.WritePrivateKeyToPem -> cert.ReadPem, the reference PKCS#8 decoder, crypto/x509 in both directions (NIST) and 4 reference-built PKCS#8 layouts; 10 RSA fixture keys 1024..4096; artifact files for all 16 block orders over {cert,key,request} x hash line x 4 key types; rejection inputs: scalar n, n+1, 2^(8len)-1, unknown/missing curve, ECPrivateKey version 0/2, swapped RSA/EC bodies, unknown algorithm, every strict prefix of a valid EC key per curve and of an RSA key, PEM around non-DER. non-trivial = distinct case that reached a comparison",
+		Rule:        "10 curves x boundary scalars (1,2,3,n-1,n-2,n/2, the largest and smallest value of every octet length 1..len-1, i.e. every number of leading zero octets, 8 mid-range; 70..150 per curve) through cert.WritePrivateKeyToPem -> cert.ReadPem, the reference PKCS#8 decoder, crypto/x509 in both directions (NIST) , 4 reference-built PKCS#8 layouts and the minimal-length (leading zeros stripped) encodings; 10 RSA fixture keys 1024..4096; artifact files for all 16 block orders over {cert,key,request} x hash line x 4 key types; rejection inputs: scalar n, n+1, 2^(8len)-1, unknown/missing curve, ECPrivateKey version 0/2, swapped RSA/EC bodies, unknown algorithm, every strict prefix of a valid EC key per curve and of an RSA key, PEM around non-DER. non-trivial = distinct case that reached a comparison",
 		Bound:       map[string]string{"scalars": "boundary values only (any valid scalar is unbounded)", "rsa": "fixture keys 1024,1536,2048,3072,4096 (two each)"},
 		Assumptions: []string{"outer PKCS#8 version, scalar 0 and trailing bytes after a complete DER value are not in the rejection alphabet (neither gopki nor the standard library rejects them)", "crypto/x509 is the 'standard library parser' of the statement"},
 		Budget:      budgets(quickBudget, thoroughBudget),
